@@ -3549,7 +3549,7 @@ class BsDecomp(Output):
             mpl.plot(x, y, label=labels[f], **opts)
 
             # This will be the same value for all files
-            unc = bsunc.compute(data, f, verif.axis.No(), interval)
+            unc = bsunc.compute(data, f, verif.axis.No(), interval)[0]
 
         mpl.xlabel("Reliability component")
         mpl.ylabel("Resolution component")
